@@ -53,7 +53,12 @@ class Fixture(object):
                 class Inst(object):
                     def _dispatch(self, method, params):
                         return resolve_and_call(method, params)
-                dispatcher.register_instance(Inst())
+                inst = Inst()
+                # the usual shape: an object routing to its own public methods (they are reachable by name as well)
+                for name, fn in table.items():
+                    if name.isidentifier() and not name.startswith("_"):
+                        setattr(inst, name, fn)
+                dispatcher.register_instance(inst)
 
     def dispatch(self, text):
         if self.custom is not None:
@@ -84,6 +89,8 @@ def std_funcs():
         "failos": Spec("failos", "*a, **k", ("raise", OSError, "disk on fire")),
         "failuser": Spec("failuser", "*a, **k", ("raise", UserError, "user défined")),
         "failempty": Spec("failempty", "*a, **k", ("raise", RuntimeError, None)),
+        "failattr": Spec("failattr", "*a, **k", ("raise", AttributeError, "'NoneType' object has no attribute 'x'")),
+        "faillookup": Spec("faillookup", "*a, **k", ("raise", KeyError, "faillookup")),
         "failtype": Spec("failtype", "*a, **k", ("typeerror-body", "unsupported operand inside body")),
         "badresult": Spec("badresult", "*a, **k", ("unconvertible",)),
         "notready": Spec("notready", "*a, **k", ("shared-fault", -32050)),
@@ -111,7 +118,7 @@ def std_tree():
 
 METHOD_NAMES = ["echo", "two", "opt", "kwonly", "noargs", "kw", "ns.sum", "é", "const0", "constnull", "constfalse",
                 "constlist", "conststr", "fail", "failkey", "failos", "failuser", "failempty", "failtype", "badresult",
-                "notready", "notready2",
+                "notready", "notready2", "failattr", "faillookup",
                 "pub", "_priv", "__dunder", "data", "sub", "sub.inner", "sub._hidden", "sub.deeper.leaf",
                 "sub.deeper._no", "sub.fail", "_hiddenns.leaf", "sub.inner.__call__", "pub.__name__",
                 "sub.__class__", "pub.spec", "nosuch", "no.such", "system.listMethods", "echo.x", ".", "..", "sub.",
